@@ -674,8 +674,69 @@ func runC14(p *core.Program, r *core.Report) {
 		}
 		r.Check(len(missing) == 0, "R14.5", name+"/all twelve kinds", p.Pos(fd.Pos()), "12 kinds", fmt.Sprintf("kinds without a case: %v", missing))
 	}
+	// R14.5 exponentiation: every function of package vm that reaches math.Pow is exactly
+	// `return math.Pow(F(a), F(b))` with F a float64-valued conversion helper checked above and
+	// a, b the parameters in order — no path computes a power any other way (a fast path that
+	// multiplies in the operand's own kind wraps where float64 does not).
+	nPow := 0
+	for _, fd := range p.FuncDecls("vm") {
+		if fd.Body == nil {
+			continue
+		}
+		var pow *ast.CallExpr
+		ast.Inspect(fd.Body, func(n ast.Node) bool {
+			if c, ok := n.(*ast.CallExpr); ok {
+				if fn := eng.CalleeOf(vinfo, c); fn != nil && fn.Pkg() != nil && fn.Pkg().Path() == "math" && fn.Name() == "Pow" {
+					pow = c
+				}
+			}
+			return true
+		})
+		if pow == nil {
+			continue
+		}
+		nPow++
+		key := "vm." + fd.Name.Name + "/power is math.Pow of the float64 conversions"
+		var params []types.Object
+		for _, f := range fd.Type.Params.List {
+			for _, nm := range f.Names {
+				params = append(params, vinfo.Defs[nm])
+			}
+		}
+		ok := len(fd.Body.List) == 1 && len(params) == 2 && len(pow.Args) == 2
+		why := "the body is not the single statement `return math.Pow(toFloat64(a), toFloat64(b))`"
+		if ok {
+			rs, isRet := fd.Body.List[0].(*ast.ReturnStmt)
+			ok = isRet && len(rs.Results) == 1 && eng.Unparen(rs.Results[0]) == ast.Expr(pow)
+		}
+		if ok {
+			for i, a := range pow.Args {
+				c, isCall := eng.Unparen(a).(*ast.CallExpr)
+				if !isCall || len(c.Args) != 1 {
+					ok, why = false, "argument "+fmt.Sprint(i+1)+" of math.Pow is not a conversion-helper call"
+					break
+				}
+				fn := eng.CalleeOf(vinfo, c)
+				id, isID := eng.Unparen(c.Args[0]).(*ast.Ident)
+				conv := fn != nil && fn.Pkg() == p.Pkg("vm").Types
+				if conv {
+					sig := fn.Type().(*types.Signature)
+					b, isB := sig.Results().At(0).Type().(*types.Basic)
+					conv = sig.Results().Len() == 1 && isB && b.Kind() == types.Float64
+				}
+				if !conv || !isID || vinfo.Uses[id] != params[i] {
+					ok, why = false, "argument "+fmt.Sprint(i+1)+" of math.Pow is `"+eng.ExprStr(a)+"`, not the float64 conversion of parameter "+fmt.Sprint(i+1)
+					break
+				}
+			}
+		}
+		r.Check(ok, "R14.5", key, p.Pos(fd.Pos()), "return math.Pow(F(a), F(b))", why+": some operand kinds or values take another route to the result than float64 exponentiation")
+	}
+	if nPow == 0 {
+		r.Unk("R14.5", "vm/exponentiation helper", "", "no function of package vm calls math.Pow")
+	}
 	r.Floor("R14.2", 1300)
-	r.Floor("R14.5", 10+4*12)
+	r.Floor("R14.5", 11+4*12)
 	r.Floor("R14.3", 20)
 	r.Floor("R14.1", 2)
 }
@@ -696,6 +757,7 @@ func c14Controls() []core.Mutant {
 		{Name: "operands swapped in subtract", File: "vm/helpers.go", Old: "func subtract(a, b interface{}) interface{} {\n\tswitch x := a.(type) {\n\tcase uint:\n\t\tswitch y := b.(type) {\n\t\tcase uint:\n\t\t\treturn x - y\n", New: "func subtract(a, b interface{}) interface{} {\n\tswitch x := a.(type) {\n\tcase uint:\n\t\tswitch y := b.(type) {\n\t\tcase uint:\n\t\t\treturn y - x\n", Rule: "R14.2", Construct: "vm.subtract/case (uint, uint)"},
 		{Name: "a pair removed from modulo", File: "vm/helpers.go", Old: "func modulo(a, b interface{}) interface{} {\n\tswitch x := a.(type) {\n\tcase uint:\n\t\tswitch y := b.(type) {\n\t\tcase uint:\n\t\t\treturn x % y\n", New: "func modulo(a, b interface{}) interface{} {\n\tswitch x := a.(type) {\n\tcase uint:\n\t\tswitch y := b.(type) {\n", Rule: "R14.5", Construct: "vm.modulo"},
 		{Name: "OpSubtract handler calls add", File: "vm/vm.go", Old: "\t\t\tvm.push(subtract(a, b))", New: "\t\t\tvm.push(add(a, b))", Rule: "R14.3", Construct: "vm.add"},
+		{Name: "squaring fast path in the operand's own kind", File: "vm/runtime.go", Old: "func exponent(a, b interface{}) float64 {\n", New: "func exponent(a, b interface{}) float64 {\n\tif n, ok := b.(int); ok && n == 2 {\n\t\treturn toFloat64(multiply(a, a))\n\t}\n", Rule: "R14.5", Construct: "vm.exponent"},
 		{Name: "toInt64 of int32 goes through int16", File: "vm/runtime.go", Old: "\tcase int32:\n\t\treturn int64(x)\n", New: "\tcase int32:\n\t\treturn int64(int16(x))\n", Rule: "R14.5", Construct: "vm.toInt64/case int32"},
 	}
 }
